@@ -451,6 +451,13 @@ def extract_reorder():
     rest = norm(body)
     if not re.search(r"if should_swap \{ pipeline\.swap\(compute_i, prev_i\); \} else \{ break; \}", rest):
         raise ExtractError("reorder: the swap loop changed")
+    # the loops Model/WinReorder.v mirrors: positions 1.., bubbling over at most i - 1 predecessors (never over position 0)
+    if not re.search(r"for i in 1\.\.pipeline\.len\(\) \{ if !matches!\(&pipeline\[i\], Super\(Compute\(_\)\)\) \{ continue; \} "
+                     r"for j in 0\.\.\(i - 1\) \{ let compute_i = i - j; let prev_i = compute_i - 1; "
+                     r"let compute = pipeline\[compute_i\] \.as_super\(\) \.unwrap\(\) \.as_compute\(\) \.unwrap\(\); let prev = &pipeline\[prev_i\]; let should_swap = match prev \{", rest):
+        raise ExtractError("reorder: the two loops (for i in 1..len, for j in 0..(i - 1)) no longer have the modelled shape")
+    if not rest.endswith("else { break; } } } pipeline"):
+        raise ExtractError("reorder: the function no longer ends by returning the pipeline")
     return out
 
 
@@ -564,7 +571,7 @@ def generate():
         gen_write("GenWindow", "(* EXTRACTION FAILED: %s *)\nDefinition gen_window_extraction_failed := tt.\n" % str(ex).replace("*)", "* )").replace("(*", "( *"))
         return {"error": str(ex)}
     v = "(* generated from /repo on every run by vplib/translate/gen_window.py -- do not edit *)\n"
-    v += "From Coq Require Import List ZArith NArith Bool.\nFrom PV Require Import Lib.ListX Model.Rel Model.Frame Model.WindowFns.\nImport ListNotations.\nLocal Open Scope Z_scope.\n\n"
+    v += "From Coq Require Import List ZArith NArith Bool.\nFrom PV Require Import Lib.ListX Model.Rel Model.Frame Model.WindowFns Model.WinReorder.\nImport ListNotations.\nLocal Open Scope Z_scope.\n\n"
     v += "(* sql/std.sql.prql: (module, function, window_frame, coalesce) *)\nDefinition std_fns : list std_fn :=\n  [ "
     items = []
     for f in info["fns"]:
@@ -641,7 +648,9 @@ def generate():
         cond = cond.replace("%s", CX[cxn])
     v += "(* sql/pq/preprocess.rs reorder: is a Compute of complexity c pulled in front of a preceding Take / Sort / anything else? *)\n"
     v += "Definition reorder_before_take (c : cx) : bool := %s.\n" % cond
-    v += "Definition reorder_before_sort : bool := %s.\nDefinition reorder_before_other : bool := %s.\n\n" % ("true" if ro["sort"] else "false", "true" if ro["other"] else "false")
+    v += "Definition reorder_before_sort : bool := %s.\nDefinition reorder_before_other : bool := %s.\n" % ("true" if ro["sort"] else "false", "true" if ro["other"] else "false")
+    v += "(* ... as the policy Model/WinReorder.v reorder is parametrised by (From / Join / Compute => false is checked by the translator) *)\n"
+    v += "Definition code_reorder_policy : reorder_policy := mk_reorder_policy reorder_before_take reorder_before_sort reorder_before_other.\n\n"
     pp = info["propagation"]
     v += "(* semantic/resolver/flatten.rs: what happens to the `partition` / `window` fields around a group body, a window body and a relational argument *)\n"
     v += "Definition code_scope_policy : scope_policy := mk_scope_policy %s %s %s %s.\n" % (pp["group_exit"], pp["window_exit"], "true" if pp["sub_partition"] else "false", "true" if pp["sub_window"] else "false")
